@@ -20,6 +20,7 @@ EXPLANATION = (
     "(v, v+1) for every 0 <= v < SCHEMA_VERSION, _CONFIG_LOADERS has a loader for every destination, the version bump is "
     "written in the `else` of the migration step inside the file lock; (e) each migration step validates before it mutates: "
     "no raise is reachable after its first file-system modification."
+    ' (h) The walk that probes for older schemas starts from an absolute path and runs after the search for a current configuration; the new workspace of the v1->v2 migration is created in the project root, independent of the configured name.'
 )
 UNDECIDED = "That a migration preserves ids, state points, documents and files for every legacy layout is behavioural and not decided."
 
